@@ -260,27 +260,35 @@ class SymCtx(BaseCtx):
         return models
 
     def end_path(self):
-        """vacuity guard: is this path's condition satisfiable?"""
+        """vacuity guard first: is this path's condition satisfiable? obligations of an infeasible path
+        are dropped (not counted as discharged)"""
         st = self.stats
         if self.pinned:
             return
-        self._discharge()
         if self.path_obligs == 0:
             return
         st["paths_with_requires"] += 1
-        if self.path_sat:
-            st["paths_witnessed"] += 1
-            return
-        s = z3.Solver()
-        s.set("timeout", 1500)
-        s.add(*self.ex.pc)
-        r = s.check()
-        if r == z3.sat:
-            st["paths_witnessed"] += 1
-        elif r == z3.unsat:
-            st["paths_infeasible"] += 1
+        if self.pending:
+            s = z3.Solver()
+            s.set("timeout", 2000)
+            s.add(*self.ex.pc)
+            t0 = time.time()
+            r = s.check()
+            st["solver_s"] += time.time() - t0
+            st["queries"] += 1
+            if r == z3.unsat:
+                st["paths_infeasible"] += 1
+                st["obligations"] -= len(self.pending)
+                st["dropped_infeasible"] += len(self.pending)
+                self.pending = []
+                return
+            if r == z3.sat:
+                st["paths_witnessed"] += 1
+            else:
+                st["paths_unwitnessed"] += 1
+            self._discharge()
         else:
-            st["paths_unwitnessed"] += 1
+            st["paths_ground_only"] += 1
 
 
 class ConcreteCtx(BaseCtx):
